@@ -230,12 +230,11 @@ def entrance_lines():
     return out
 
 
-F42_TAG = "observe-response-before-ack"
-
-
 def observe_f42_lines():
-    """Known finding F42: on the observe entrance (Conn.DoObserve -> NewObservation -> Conn.WriteMessage) the first notification
-    that arrives BEFORE the acknowledgement does not end the exchange.  The acknowledgement arrives later / never (all lost: the
+    """Finding F42 (FIXED: Conn.handle acknowledges a confirmable request by the token of its response, udp/client/conn.go
+    acknowledgeByResponse): on the observe entrance (Conn.DoObserve -> NewObservation -> Conn.WriteMessage) the first notification
+    that arrives BEFORE the acknowledgement used not to end the exchange; it has to now - these histories are judged like any
+    other (the registration succeeds in the step of the notification, no copy after it).  The acknowledgement arrives later / never (all lost: the
     call must not fail, it was answered) / the notification comes after a retransmission; levels bw and hand; NON and CON
     notification.  Returns (line, is_control): the controls are the same histories through Conn.Do (`send`: F21 repaired in
     doInternal) and must stay clean."""
@@ -254,30 +253,6 @@ def observe_f42_lines():
                         out.append((" | ".join(head + ["sleep %d" % (A + 1), "tick 0", "resp 0 %s 8" % typ, "sleep %d" % A, "tick 0",
                                                       "ack 0", "tick 0"]), ctl))
     return out
-
-
-def f42_window(line):
-    """(k0, k1, demand): the steps (1-based, the op after `cfg` is step 1) in which F42 explains a violation of a history: k0 = the
-    first response for an `obs` request that nothing carrying its message ID has answered yet (`no-success` there); up to k1, the
-    op before the first acknowledgement / reset / cancellation of that request, `copy-after-stop` at the passes; demand = the
-    later steps at which something for that request comes back again while the answered call still has not returned (the
-    judge repeats `no-success`; e.g. the acknowledgement after the entry was given up)."""
-    ops = [o.split() for o in line.split("|")][1:]
-    obs_ids = set()
-    k0 = None
-    for k, f in enumerate(ops, 1):
-        if not f:
-            continue
-        if f[0] == "obs" and f[2] == "-":
-            obs_ids.add(f[1])
-        elif k0 is None and f[0] in ("ack", "rst", "pig", "cancel") and len(f) > 1 and f[1] in obs_ids:
-            obs_ids.discard(f[1])
-        elif k0 is None and f[0] == "resp" and f[1] in obs_ids:
-            k0, who = k, f[1]
-        elif k0 is not None and f[0] in ("ack", "rst", "pig", "cancel") and len(f) > 1 and f[1] == who:
-            demand = set(j for j, g in enumerate(ops, 1) if j >= k and g and g[0] in ("ack", "pig", "resp") and g[1] == who)
-            return k0, k - 1, demand
-    return (k0, len(ops), set()) if k0 is not None else None
 
 
 def kinds_lines(mmax, acks=(1000, 2 * 10**9)):
@@ -505,8 +480,6 @@ def minimise(ctx, art, line):
         for i in range(len(ops) - 1, 0, -1):
             cand = ops[:i] + ops[i + 1:]
             budget -= 1
-            if f42_window(" | ".join(cand)) and not f42_window(line):
-                continue    # dropping this op would turn the history into the known finding F42 (observe entrance): not the same failure
             if fails(ctx, art, " | ".join(cand)):
                 ops = cand
                 changed = True
@@ -572,7 +545,7 @@ def explore(ctx, art):
     ctx.count("request through Conn.WriteMessage / Conn.DoObserve, block-wise layer on: context ends between retransmissions", len(el))
     fl = observe_f42_lines()
     lines += [l for l, _ in fl]
-    ctx.count("observe entrance: first notification before the ACK (known finding F42) + the same through Conn.Do (control)", len(fl))
+    ctx.count("observe entrance: first notification before the ACK (finding F42, fixed) + the same through Conn.Do (control)", len(fl))
     ul = udpsrv_lines(3 if thorough else 1)
     lines += ul
     ctx.count("level-udpsrv (server-issued request on a Server.NewConn connection, real sockets)", len(ul))
@@ -594,16 +567,6 @@ def explore(ctx, art):
     distinct = set()
     nviol = 0
     nbroken = 0
-    # histories of the observe entrance that the judge rejects: every clause that fails when the judge carries on, so that what
-    # known finding F42 explains (no-success at the notification, copy-after-stop at the passes before the acknowledgement) can be
-    # told from anything else such a history shows
-    all_clauses = {}
-    if judge is not None and art.get("driver"):
-        idx = [i for i, l in enumerate(lines) if " obs " in l and judge[i] != "ok"]
-        if idx:
-            rc, ja, _ = common.pipe_lines([art["driver"], "judgeall"], [lines[i] + " || " + impl[i] for i in idx])
-            if rc == 0 and len(ja) == len(idx):
-                all_clauses = dict(zip(idx, ja))
     for i, (l, o) in enumerate(zip(lines, impl)):
         ctx.cov["evaluations"] += 1
         if o.startswith("panic") or "bad-op" in o:
@@ -613,21 +576,6 @@ def explore(ctx, art):
             nbroken += 1
             if nbroken <= 10:
                 ctx.broken.append(("correspondence", "C06 model vs implementation", "%s: impl `%s` model `%s`" % (l, o, model[i])))
-        if judge is not None and judge[i] != "ok" and i in all_clauses and f42_window(l):
-            k0, k1, demand = f42_window(l)
-            for item in all_clauses[i].replace("violates ", "", 1).split("; "):
-                f = item.split()
-                clause, step = f[0], int(f[1].split("=")[1]) if len(f) > 1 and "=" in f[1] else 0
-                ctx.count("judge-rejects/" + clause + " (observe entrance)")
-                known = (clause == "no-success" and (step == k0 or step in demand)) or (clause == "copy-after-stop" and k0 < step <= k1)
-                sig = "C06:%s:%s" % (clause, F42_TAG if known else l)
-                if any(v.signature == sig for v in ctx.violations):
-                    continue
-                ctx.violations.append(common.Violation(
-                    clause, sig, "%s: observed `%s`: violates %s step=%d" % (l, o, clause, step),
-                    {"input": [l], "observed": o, "judge": all_clauses[i],
-                     "note": "observe entrance; clauses listed by drv_c06 judgeall (the judge carrying on after its first violation)"}))
-            continue
         if judge is not None and judge[i] != "ok":
             ctx.count("judge-rejects/" + (judge[i].split()[1] if len(judge[i].split()) > 1 else "?"))
             nviol += 1
@@ -718,26 +666,7 @@ def late_responses(ctx, art):
                                                    {"input": [l], "late": True, "observed": o, "judge": j}))
 
 
-def _local_known_findings():
-    """docs/notes/C06.known.json holds the entry of known finding F42 until it is merged into /verif/known_findings.json
-    (checks/common.py reads only that file): entries whose id is not listed there yet are added for this run."""
-    p = os.path.join(common.VERIF, "docs", "notes", "C06.known.json")
-    if not os.path.exists(p) or getattr(common.load_known, "_c06", False):
-        return
-    orig = common.load_known
-
-    def load():
-        k = orig()
-        extra = json.load(open(p))
-        extra = extra.get("findings", []) if isinstance(extra, dict) else extra
-        ids = set(x.get("id") for x in k)
-        return k + [e for e in extra if e.get("id") not in ids]
-    load._c06 = True
-    common.load_known = load
-
-
 def run(ctx):
-    _local_known_findings()
     art = common.standard_prepare(ctx, MODULES, hx=False, test=True, generated=GENERATED)
     if art.get("test"):
         explore(ctx, art)
